@@ -19,6 +19,7 @@ def run(ctx: Ctx) -> list[Ob]:
     obs += r13.r13a(ctx, ['cirkit.templates.pgms.hmm'], require=2)
     obs += r13.r13c(ctx, 'cirkit.templates.pgms.hmm', {'input_layer_kwargs'})
     obs += r11.r11d(ctx)
+    obs += r11.r11l(ctx)
     obs += [o for o in r11.r11c(ctx) if ':finite' in o.instance]
     obs += [o for o in r4.param_op_contracts(ctx) if o.construct.endswith(tuple('Torch' + n for n in SOFT))]
     obs += [o for o in r3.r3d(ctx) if o.instance.startswith('settings:')]
@@ -37,6 +38,7 @@ SPEC = PropSpec(
         "dim in config (the folder re-instantiates them); R5a -- TorchSoftmaxParameter / TorchLogSoftmaxParameter apply the softmax "
         "along dim + 1 (the fold axis shift). R13a / R13c on the hmm template (a normalised template with per-variable arguments): every per-variable table is read by variable id (index-space typing: ordering is position-indexed, per-variable arguments are variable-indexed), otherwise a variable is normalised over another variable's number of categories. R11d / R11c: every hand-written stable exponential exp(x - max(..)) in the torch backend takes the maximum along an axis (never over the whole tensor) and the log-space reduce makes its shift finite -- otherwise normalised weights of very different scale, or log 0, evaluate to nan instead of a distribution."
         " R4a/R4l on the normalising operators (softmax, log-softmax, sigmoid, mixing weights; shape interpretation): forward returns (F, *shape) and, for the mixing-weight matrix, the H*K columns are laid out arity-major with the unit axis tied to the row by an identity -- a tile in place of an interleave pairs entry j of the weights with entry j of the identity across different factorisations of the axis, and the rows no longer sum to one unless gcd(K, H) = 1. R13g: the default sum-weight parameterisation of image_data / tabular_data has activation softmax (a Dirichlet draw without activation is normalised only until the first update). R3d settings: the fold-group key of layers contains the whole config (two Binomial layers with different total_count must not share a folded layer that is rebuilt from the first one's config)."
+        ' R11l: no log-likelihood multiplies an input-derived factor (a count x, n - x) by the unclamped logarithm of a parameter-derived probability: at the in-support point where the factor is 0 and the probability has rounded to 0 / 1 (a saturated sigmoid) that is 0 * -inf = nan; torch.xlogy / xlog1py or a clamp (as torch.distributions does) is required.'
     ),
     not_decided=(
         "Z == 1 itself, non-negativity and finiteness in log space (numerical); that every template wires the factories into every sum "
